@@ -7,6 +7,16 @@ from vlib import hexs, unhexs, CACHE, ENV
 import gen
 
 
+def run_lines_with_tty(exe, lines, env):
+    """Runs the harness on several requests in ONE process with stderr attached to a pty."""
+    master, slave = pty.openpty()
+    p = subprocess.Popen([exe], stdin=subprocess.PIPE, stdout=subprocess.PIPE, stderr=slave, env=env, text=True)
+    os.close(slave)
+    out, _ = p.communicate("\n".join(lines) + "\n", timeout=120)
+    os.close(master)
+    return out.strip().split("\n")
+
+
 def run_with_tty(exe, line, tty, env):
     """Runs the harness on one request with stderr attached to a pty (or a pipe)."""
     e = dict(ENV)
@@ -100,6 +110,26 @@ def run(ck):
                             "appear" if styled else "are missing", "is" if tty else "is not", "set" if nocolor else "unset",
                             {0: "no guard exists", 1: "a plain-output guard is alive", 2: "an outer plain-output guard is alive (an inner one was dropped)", 3: "a guard was created and dropped before"}[guard]),
                                   dict(tty=tty, NO_COLOR=nocolor, guard_scenario=guard, styled=styled, expected_styled=want, output=text[:300]))
+        # colour must follow the environment at the time of each failure, whatever failed before
+        envp = {k: v for k, v in ENV.items() if k != "NO_COLOR"}
+        r0 = req.replace(" 1 %s 2 " % hexs(src), " 0 %s 2 " % hexs(src), 1)
+        r1 = req.replace(" 1 %s 2 " % hexs(src), " 1 %s 2 " % hexs(src), 1)
+        seqs = {
+            "styled-then-NO_COLOR": ([r0, "setenv %s %s" % (hexs("NO_COLOR"), hexs("1")), r0, "unsetenv %s" % hexs("NO_COLOR"), r0], [True, None, False, None, True]),
+            "guard-then-none-then-NO_COLOR": ([r1, r0, "setenv %s %s" % (hexs("NO_COLOR"), hexs("1")), r1, r0], [False, True, None, False, False]),
+        }
+        for name, (lines, wants) in seqs.items():
+            outs2 = run_lines_with_tty(exe, lines, envp)
+            for step, (o, want) in enumerate(zip(outs2, wants)):
+                if want is None:
+                    continue
+                f = dict(x.split("=", 1) for x in o.split(" ")[1:]) if " " in o else {}
+                text = unhexs(f.get("out", "-")) if f.get("out") else ""
+                styled = "\x1b[" in text
+                cdist["history %s step %d styled=%d" % (name, step, styled)] = 1
+                if styled != want:
+                    ck.report("colour:history:%s" % name, "the colour decision of a report depends on earlier reports in the process (step %d of the sequence: %s)" % (step, "styled" if styled else "plain"),
+                              dict(sequence=name, step=step, styled=styled, expected_styled=want, requests=[l[:60] for l in lines]))
         ck.corr_record("T5 colour matrix (child processes with stderr on a pty / a pipe x NO_COLOR x {no guard, guard alive, outer guard alive + inner dropped, guard dropped}): styled iff terminal, NO_COLOR unset and no live guard",
                        16, 16, 0, cdist, samples=[dict(tty=True, NO_COLOR=False, guard=2)], exhaustive=True, rule="the full 2 x 2 x 4 matrix; all distinct")
     finally:
